@@ -103,13 +103,19 @@ def collect_agent_data(
             )
 
     data = {
-        k: (np.asarray(v, dtype=object) if k == "marker" else np.asarray(v))
+        k: (np.asarray(v, dtype=object) if k in ("marker", "c") else np.asarray(v))
         for k, v in arguments.items()
     }
     # ensures that the tuples in marker dont get converted by numpy to an array resulting in a 2D array
     arr = np.empty(len(arguments["marker"]), dtype=object)
     arr[:] = arguments["marker"]
     data["marker"] = arr
+    # likewise for colors: names, hex strings and RGB(A) tuples may be mixed (e.g. a tuple from
+    # the portrayal of one agent and the default color name for another)
+    arr = np.empty(len(arguments["c"]), dtype=object)
+    for i, c in enumerate(arguments["c"]):
+        arr[i] = c
+    data["c"] = arr
     return data
 
 
